@@ -1,10 +1,56 @@
-(* Props/C03.v -- property theorems for C03 (stripping removes exactly the escape
-   sequences and nothing else).  Only statements, each closed by [exact]. *)
+(* Props/C03.v -- property theorems for C03 (incremental processing equals one-shot
+   processing for every chunking).  Only statements, each closed by [exact]. *)
 From Coq Require Import NArith List Bool.
-From AV Require Import Generated.Table Spec.Vt Spec.Strip Model.Base Model.Parser Model.Strip Proofs.TableFacts.
+From AV Require Import Generated.Table Spec.Utf8 Spec.Vt Spec.Strip Model.Base Model.Utf8parse Model.Parser Model.Strip
+  Proofs.TableFacts Proofs.StripMachine Proofs.StripSim Proofs.StripStr.
 Import ListNotations.
 Local Open Scope N_scope.
 
-Theorem c03_table_is_williams :
-  forall s b, b < 256 -> trans_matches s b = true.
-Proof. exact table_is_williams. Qed.
+(* byte API: for EVERY list of chunks (cuts anywhere: inside a sequence, inside a
+   character), feeding them through StripBytes never panics, the concatenated
+   output equals the specification of the concatenated input and the one-shot
+   result, and the state carried after the last chunk is the one-shot state *)
+Theorem c03_strip_bytes_chunked :
+  forall chunks, bytes_ok (concat chunks) ->
+  exists pss st u,
+    strip_bytes_chunks chunks Ground u8_new = Some (pss, st, u) /\
+    concat (map (fun ps => concat (map p_bytes ps)) pss) = spec_strip (concat chunks) /\
+    Some (concat (map (fun ps => concat (map p_bytes ps)) pss)) = strip_bytes_model (concat chunks) /\
+    exists ps1, strip_next_bytes (concat chunks) Ground u8_new = Some (ps1, [], st, u).
+Proof. exact strip_bytes_chunked. Qed.
+
+(* text API: every list of chunks that are each valid UTF-8 (cuts at character
+   boundaries, possibly inside an escape sequence) *)
+Theorem c03_strip_str_chunked :
+  forall chunks, bytes_ok (concat chunks) -> Forall (fun c => valid_utf8 c = true) chunks ->
+  exists pss st,
+    strip_str_chunks chunks Ground = Some (pss, st) /\
+    concat (map (fun ps => concat (map p_bytes ps)) pss) = spec_strip (concat chunks) /\
+    Some (concat (map (fun ps => concat (map p_bytes ps)) pss)) = strip_str_model (concat chunks).
+Proof. exact strip_str_chunked. Qed.
+
+(* the scanner machines are folds: run (a ++ b) = run (run a) b *)
+Theorem c03_machine_is_fold :
+  forall a b st u st1 u1 o1,
+  mrun st u a = Some (st1, u1, o1) ->
+  mrun st u (a ++ b) =
+    match mrun st1 u1 b with
+    | Some (st2, u2, o2) => Some (st2, u2, o1 ++ o2)
+    | None => None
+    end.
+Proof. exact mrun_app. Qed.
+
+(* each incremental iterator leaves exactly the fold state behind *)
+Theorem c03_iterator_leaves_fold_state :
+  forall fuel bs off st u ps bs' st' u',
+  (length bs < fuel)%nat -> bytes_ok bs -> Inv st u ->
+  bytes_iter fuel bs off st u = Some (ps, bs', st', u') ->
+  bs' = [] /\ mrun st u bs = Some (st', u', concat (map p_bytes ps)).
+Proof. exact bytes_iter_spec. Qed.
+
+(* non-vacuity: a sequence cut in the middle, and a character cut in the middle *)
+Theorem c03_example :
+  exists pss st u,
+    strip_bytes_chunks [[97; 27; 91]; [51; 50; 109; 226; 130]; [172; 98]] Ground u8_new = Some (pss, st, u) /\
+    concat (map (fun ps => concat (map p_bytes ps)) pss) = [97; 226; 130; 172; 98].
+Proof. vm_compute. eauto. Qed.
